@@ -149,6 +149,7 @@ def gen_case(rng, malformed=False):
         elif kindm == "unknown-error":
             ops.insert(pos, {"op": "add_interactions", "rows": [gen_row(rng, uids[-1], rng.choice(items), schema)], "missing": "error"})
         elif kindm in ("repeat-pair", "late-repeat"):
+            case["allow_repeats"] = rng.chance(1, 2)
             adds = [o for o in ops if o["op"] == "add_interactions" and o["rows"]]
             if adds:
                 src = rng.choice(adds)["rows"][0]
@@ -178,7 +179,7 @@ def gen_case(rng, malformed=False):
 
 
 def gen_cases(rng, tier):
-    n = 420 if tier == "quick" else 5000
+    n = 900 if tier == "quick" else 6000
     return [gen_case(rng.fork(k), malformed=(k % 6 == 5)) for k in range(n)]
 
 
